@@ -1,15 +1,15 @@
 SPECIFICATION Spec
 CONSTANTS
-  Cfgs <- MC_CfgsDid0
+  Cfgs <- MC_CfgsTrunc
   Lens <- MC_Lens
   Ds <- MC_Ds
   MaxEx = 3
-  MaxFaults = 2
-  MaxStepFaults = 2
-  Vs <- MC_VsHead
+  MaxFaults = 1
+  MaxStepFaults = 3
+  Vs <- MC_VsFixed
   WithRelease = TRUE
-  WithTrunc = FALSE
-  MaxSess = 2
+  WithTrunc = TRUE
+  MaxSess = 1
 INVARIANT ExactlyOnce
 INVARIANT Intact
 INVARIANT OnlyCommErr
@@ -17,5 +17,6 @@ INVARIANT FrameFits
 INVARIANT OneFaultOk
 INVARIANT TargetOk
 INVARIANT PniInSync
+INVARIANT FirstPni
 VIEW View
 CHECK_DEADLOCK FALSE
